@@ -78,7 +78,7 @@ def plan(tier, seed):
     # sampled larger shapes
     big = [s for s in shapes(6) if len(s) > max_exh]
     rnd = random.Random('%s/C11/big' % seed)
-    for s in rnd.sample(big, 30 if tier == 'quick' else 600):
+    for s in rnd.sample(big, 30 if tier == 'quick' else 300):
         specs.append({'id': 'c11-%d' % i, 'shape': s, 'flavour': rnd.choice(FLAVOURS),
                       'plen': 2 if tier == 'quick' else 4, 'max_cells': 120 if tier == 'quick' else 600,
                       'variant': rnd.randrange(1 << 30), 'seed': '%s/C11/%d' % (seed, i)})
